@@ -9,6 +9,28 @@ typedef unsigned char u8_t;
 typedef unsigned int u32_t;
 typedef unsigned long long u64_t;
 
+#ifdef WENCRY_VERIF
+/* verification hook H2: event / scheduling points; wencry_verif_point is supplied by the verification harness */
+extern "C" void wencry_verif_point(int kind, int id);
+enum
+{
+  WV_WORKER_START = 1,
+  WV_WORKER_EXIT,
+  WV_GET_BEGIN,
+  WV_GET_SOME,
+  WV_GET_NULL,
+  WV_EXPORT_BEGIN,
+  WV_EXPORT_END,
+  WV_LOAD_BEGIN,
+  WV_LOAD_END,
+  WV_TURN_ITER,
+  WV_BLOCK_DONE
+};
+#define WENCRY_VERIF_POINT(kind, id) wencry_verif_point((kind), (int)(id))
+#else
+#define WENCRY_VERIF_POINT(kind, id)
+#endif
+
 /*
 bufstate_t:缓冲区状态
 EMPTY:空缓冲区
@@ -76,6 +98,12 @@ public:
   u32_t get_size() { return (total << 4) | tail; };
   loadstate_t load_buffer(FILE *fin, bool ispadding);
   void export_buffer(FILE *fout, bool ispadding);
+#ifdef WENCRY_VERIF
+  /* verification hook H3: read-only accessors */
+  u32_t verif_total() const { return total; };
+  u32_t verif_now() const { return now; };
+  bool verif_isfinal() const { return isfinal; };
+#endif
 };
 /*
 bufferctrl:缓冲区状态控制类
@@ -99,6 +127,11 @@ public:
   void wait_update();
   void set_ready(bool load);
   void set_update();
+#ifdef WENCRY_VERIF
+  /* verification hook H3: read-only accessors */
+  static u8_t verif_live_num() { return live_num; };
+  int verif_state() const { return (int)state; };
+#endif
 };
 /*
 buffergroup:用于多线程的缓冲区组
@@ -139,5 +172,14 @@ public:
   void set_buffergroup(u32_t size, FILE *fin, FILE *fout, bool ispadding);
   u8_t *require_buffer_entry(const u8_t id);
   void run_buffer(const std::function<void(std::string, size_t)> &printload);
+#ifdef WENCRY_VERIF
+  /* verification hook H3: read-only accessors */
+  static buffergroup *verif_instance() { return instance; };
+  u32_t verif_turn() const { return turn; };
+  u32_t verif_size() const { return size; };
+  bool verif_over() const { return over; };
+  const iobuffer *verif_buf(u32_t i) const { return buflst ? &buflst[i] : NULL; };
+  const bufferctrl *verif_ctrl(u32_t i) const { return ctrl ? &ctrl[i] : NULL; };
+#endif
 };
 #endif
